@@ -176,6 +176,10 @@ Definition c5_labels1 (c : c05_case) : list (option src) := ident1_labels (c5_ra
 Definition hyp_registry_of1 (c : c05_case) : bool :=
   registry_of1b (pg_defs (c5_prog c)) (c5_labels1 c) (tg_reg (c5_tg c)).
 
+(** the same as a gate: the interner's registry IS the program's registry in the sense of
+    [RegistryOf1] on every case (as [corr_registry_of] ties its entries to [RegistryOf]) *)
+Definition corr_registry_of1 (c : c05_case) : bool := hyp_registry_of1 c.
+
 (** the two printed label lists agree: the [canon] labels are [canon] of the labels as written *)
 Definition hyp_labels_agree (c : c05_case) : bool :=
   list_eqb (option_eqb src_eqb)
